@@ -19,6 +19,7 @@
 EXTENDS Wire, IOUtils
 
 Traces == ndJsonDeserialize(IOEnv.TRACE_FILE)
+NoOps == <<>>          \* Wire's Init is not used here
 VARIABLES tid, cid, done
 
 CallOf(t, k) == [op |-> t.op, sig |-> t.sig, plan |-> {}, args |-> t.calls[k].args, reqs |-> <<>>,
